@@ -6,10 +6,10 @@
 #ifndef C05_NAMES_H
 #define C05_NAMES_H
 
-enum { K_DNS = 0, K_EMAIL, K_IP, K_URI, K_NKIND };
-static const char *kind_name[K_NKIND] = { "dns", "email", "ip", "uri" };
-static const char kind_letter[K_NKIND] = { 'D', 'E', 'I', 'U' };
-static const unsigned char kind_gntag[K_NKIND] = { 0x82, 0x81, 0x87, 0x86 };
+enum { K_DNS = 0, K_EMAIL, K_IP, K_URI, K_OTHER, K_NKIND };   /* K_OTHER: otherName, content octets = type-id + [0] value */
+static const char *kind_name[K_NKIND] = { "dns", "email", "ip", "uri", "othername" };
+static const char kind_letter[K_NKIND] = { 'D', 'E', 'I', 'U', 'O' };
+static const unsigned char kind_gntag[K_NKIND] = { 0x82, 0x81, 0x87, 0x86, 0xa0 };
 
 typedef struct {
     int         kind;
@@ -66,6 +66,13 @@ static sanent_t POOL[] = {
     /* 36 */ SE(K_URI, "https://www.example.com/", "uri", 1),
     /* 37 */ SE(K_URI, "www.example.com", "uri-bare-host", 0),
     /* 38 */ SE(K_URI, "https://www.example.com/\0", "uri-trailing-nul", 0),
+    /* 39 */ SE(K_DNS, "*.0.0.1", "dns-wild-ip-literal", 0),
+    /* ---- otherName: opaque to the matcher, whatever its value contains */
+    /* 40: type-id 1.3.6.1.4.1.99999.1, value [0] { [APPLICATION 33] (two-octet identifier 5f 21) of 49 octets: 32 filler
+           octets followed by the octets 82 0f "www.example.com" - the encoding of a dNSName, inside the opaque value } */
+    /* 40 */ SE(K_OTHER, "\x06\x09\x2b\x06\x01\x04\x01\x86\x8d\x1f\x01\xa0\x34\x5f\x21\x31" "AAAAAAAAAAAAAAAAAAAAAAAAAAAAAAAA" "\x82\x0f" "www.example.com", "othername-hiding-a-dnsname", 0),
+    /* 41: a userPrincipalName (1.3.6.1.4.1.311.20.2.3), value [0] { UTF8String "user@example.com" } */
+    /* 41 */ SE(K_OTHER, "\x06\x0a\x2b\x06\x01\x04\x01\x82\x37\x14\x02\x03\xa0\x12\x0c\x10" "user@example.com", "othername-upn", 0),
     /* dynamic slot (index NPOOL): never enumerated by the table product */
     { K_DNS, dyn_san, 0, "byte-substituted", 0 },
 };
